@@ -670,6 +670,16 @@ def interp_oracle(ctx: Ctx, kind, case, x, y, xn, polys, tail, w, kw):
                 V(ctx, f"interp:{kind}:pointwise", f"{kind}: the value at a new abscissa depends on the other new abscissae or their order "
                   f"(reordered x_new: {float(np.max(np.abs(rq - r0[q]))) if rq.shape == r0.shape else 'shape'!s}, "
                   f"x_new[{j}] alone: {float(np.max(np.abs(r1[0] - r0[j]))):.3e}; scale {ymax:.3e})", {**case, "xn_order": q.tolist()})
+        # 7. a cubic spline interpolator without end conditions of its own (not-a-knot) reproduces cubic polynomials
+        if kind in ("cubic", "interpolated_univariate_spline") and n >= 4:
+            co3 = [rng.uniform(-3, 3) for _ in range(4)]
+            tx, tn = (x - x[0]) / (x[-1] - x[0]), (xn - x[0]) / (x[-1] - x[0])
+            got3 = call(x, sum(cj * tx ** j for j, cj in enumerate(co3)), xn)
+            want3 = sum(cj * tn ** j for j, cj in enumerate(co3))
+            ratio = float(np.max(np.diff(x)) / np.min(np.diff(x)))
+            if not np.all(np.abs(got3 - want3) <= unit * ratio ** 2 * lam * sum(abs(cj) for cj in co3) * 4):
+                V(ctx, f"interp:{kind}:cubic-polynomial", f"{kind} does not reproduce a cubic polynomial (error {float(np.max(np.abs(got3 - want3))):.3e})",
+                  {**case, "coeffs": co3})
         # 5. polynomial reproduction below the window degree (lagrange only)
         if kind == "lagrange" and polys:
             t = (xn - x[0]) / (x[-1] - x[0])
